@@ -107,6 +107,20 @@ def resolve (k : Kind) (inst : Option (List Int)) (sel : Option ACfg) (vk : View
    | .hist b nmm => .hist b nmm (noSumKind k)
    | .expo ms sc nmm => .expo ms sc nmm (noSumKind k), ra.2)
 
+/-- how recording goes with an exponential histogram created with `(MaxSize, MaxScale)` and the default exemplar
+reservoir selector (pipeline.go `cachedAggregator`, exemplar.go): the reservoir of size `min(20, MaxSize)` is made
+when the first finite value of an attribute set arrives — `make` with a negative length panics —, and the first
+non-zero value calls `getBin`, which indexes `scaleFactors[scale]` (21 entries) when the scale is positive -/
+inductive ExpoOutcome
+  | panicMakeslice | panicIndex | runs
+deriving DecidableEq, Repr
+
+def expoOutcome (ms sc : Int) (vals : List Int) : ExpoOutcome :=
+  if vals.isEmpty then .runs
+  else if ms < 0 then .panicMakeslice
+  else if sc > 20 ∧ vals.any (· != 0) then .panicIndex
+  else .runs
+
 /-- the explicit-bucket point as reported with the `NoMinMax` / `noSum` flags: no extrema, zero sum -/
 def histExport (noMinMax noSum : Bool) (h : Hist) : List Nat × Nat × Int × Option Int × Option Int :=
   (h.counts, h.count, if noSum then 0 else h.total, if noMinMax then none else some h.min,
